@@ -917,6 +917,108 @@ def self_above(args):
 
 
 # ---------------------------------------------------------------------------------------------
+# direction 1 for Chain.tla: a behaviour (three levels, two rounds) built as a real tree and run
+# through the real loader; names, surviving self-entries, the writes of the second round and both
+# results are compared with the model's prediction (a difference is drift of the MODEL), and the
+# records are judged by TraceUpdate like any other history
+
+CHAIN_DIRS = ['', 'a', 'a/b']
+
+
+def _at(x, k):
+    """TLA+ function printed as JSON: a list when its domain is 1..n, else an object keyed by the argument"""
+    return x[k - 1] if isinstance(x, list) else x[str(k)]
+
+
+def chain_replay(args):
+    idx, beh = args
+    rng = random.Random('chain-%d' % idx)
+    root = tlc.scratch_dir('vch')
+    try:
+        L = gen.Layout(rng)
+        L.dirs = list(CHAIN_DIRS)
+        gz0 = beh['init']['gz']
+        mfp = {}
+        for k in (1, 2, 3):
+            d = CHAIN_DIRS[k - 1]
+            mfp[k] = (d + '/' if d else '') + ('Manifest.gz' if gz0[k - 1] else 'Manifest')
+            L.mf[mfp[k]] = []
+        for k in (1, 2, 3):
+            d = CHAIN_DIRS[k - 1]
+            fpth = (d + '/' if d else '') + 'f%d' % k
+            L.files[fpth] = b'content-%d' % k
+            ents = [fm.make_entry('DATA', 'f%d' % k, L.files[fpth], ['SHA1'])]
+            selfent = None
+            if beh['init']['self'][k - 1]['has']:
+                selfent = {'tag': 'MANIFEST', 'path': os.path.basename(mfp[k]), 'size': 5, 'ck': {'MD5': '00' * 16}}
+            child = None
+            if k < 3:
+                child = {'tag': 'MANIFEST', 'path': L.rel(mfp[k + 1], mfp[k]), 'size': 0, 'ck': {'SHA1': ''},
+                         'ref': mfp[k + 1]}
+                if _at(beh['init']['ref'], k + 1)['ver'] < 0:
+                    child = {'tag': 'MANIFEST', 'path': L.rel(mfp[k + 1], mfp[k]), 'size': 1,
+                             'ck': {'SHA1': '00' * 20}}
+            if selfent and beh['selffirst'][k - 1]:
+                ents.append(selfent)
+            if child:
+                ents.append(child)
+            if selfent and not beh['selffirst'][k - 1]:
+                ents.append(selfent)
+            if k >= 2 and _at(beh['big'], k):
+                ents += [{'tag': 'DIST', 'path': 'pad-%02d.tar' % j, 'size': 1, 'ck': {'SHA1': '%040x' % j}} for j in range(12)]
+            L.mf[mfp[k]] = ents
+        L.write(root)
+        edits = []
+        if beh['edit']:
+            with open(os.path.join(root, 'a/b/f3'), 'ab') as f:
+                f.write(b' edited')
+            edits.append({'m': 'alter_size', 'p': 'a/b/f3'})
+        opts = {'hashes': ['SHA1'], 'sub': CHAIN_DIRS[beh['t'] - 1], 'sort': None, 'force': False,
+                'wm': 600 if beh['wm'] else None, 'fmt': 'gz' if beh['wm'] else None, 'profile': 'default',
+                'extra_round': False}
+        namer = fm.Namer()
+        recs = run_history(root, L, rng, namer, opts, {'chain': idx, 'edits': edits, 'prior': [], 't': beh['t']})
+        for r in recs:
+            drift = []
+            got1 = r['ev']['end'] if r['ev']['end'] in ('ok', 'oserror', 'internal') else 'other'
+            if got1 != beh['result'][0]:
+                drift.append('chain-result1:%s/%s' % (beh['result'][0], r['ev']['exc'] or got1))
+            elif got1 == 'ok':
+                names = set(_unname(namer, m['p']) for m in r['s1']['mfs'])
+                for k in (2, 3):
+                    d = CHAIN_DIRS[k - 1]
+                    want = d + '/' + ('Manifest.gz' if beh['gz'][k - 1] else 'Manifest')
+                    other = d + '/' + ('Manifest' if beh['gz'][k - 1] else 'Manifest.gz')
+                    if want not in names or other in names:
+                        drift.append('chain-name-level%d' % k)
+                for k in (1, 2, 3):
+                    d = CHAIN_DIRS[k - 1]
+                    has = False
+                    for m in r['s1']['mfs']:
+                        mp = _unname(namer, m['p'])
+                        if os.path.dirname(mp) == d and os.path.basename(mp).startswith('Manifest'):
+                            for e in m['entries']:
+                                if e['tag'] == 'MANIFEST' and _unname(namer, m['p'][:-1] + e['p']) in (
+                                        (d + '/' if d else '') + 'Manifest', (d + '/' if d else '') + 'Manifest.gz') \
+                                        and len(e['p']) == 1:
+                                    has = True
+                    if has != beh['self'][k - 1]:
+                        drift.append('chain-self-level%d' % k)
+                got2 = r['second_end'].split(':')[0] if r['second_end'] else 'none'
+                want2 = beh['result'][1]
+                if got2 != want2:
+                    drift.append('chain-result2:%s/%s' % (want2, r['second_end']))
+                elif got2 == 'ok':
+                    w2 = sorted(set(CHAIN_DIRS.index(os.path.dirname(_unname(namer, p))) + 1 for p in r['second_changed']))
+                    if w2 != sorted(beh['wrote2']):
+                        drift.append('chain-wrote2')
+            r['drift'] = drift
+        return recs
+    finally:
+        shutil.rmtree(root, ignore_errors=True)
+
+
+# ---------------------------------------------------------------------------------------------
 # direction 1: behaviours exported by TLC from Update.tla, replayed into the real loader
 
 PRED_END = {'ok': ('ok', ''), 'oserror': ('oserror', ''), 'syntax': ('fail', 'ManifestSyntaxError'),
